@@ -22,10 +22,17 @@ Plus(a, b) == App(App(PlusC(NatT), a), b)
 Minus(a, b) == App(App(MinusC(NatT), a), b)
 Lam(b) == <<"abs", NatT, b>>
 Sig == { vx, vy, vf, Z, PlusC(NatT) }
-ArgTypes == { NatT, NN }
+ArgTypes == { NatT }
 TopTypes == { NatT, NN }
 Small(S, n) == { t \in S : Size(t) <= n }
-GenT(T, d) == Small(Gen(Sig, ArgTypes, T, d, <<>>), MaxSize)
+\* size-indexed typed generator: EXACTLY the well-typed terms of type T with Size <= n (HolGen.Gen is depth-indexed)
+RECURSIVE GenS(_,_,_)
+GenS(T, n, env) ==
+  { s \in Sig : s[3] = T } \cup { <<"bound", k - 1>> : k \in { k \in 1..Len(env) : env[k] = T } }
+  \cup (IF n >= 3 THEN UNION { UNION { { <<"comb", f, a>> : f \in GenS(FunT(A, T), k, env), a \in GenS(A, n - 1 - k, env) } : k \in 1..(n - 2) } : A \in ArgTypes }
+        ELSE {})
+  \cup (IF IsFun(T) /\ n >= 2 THEN { <<"abs", T[3][1], b>> : b \in GenS(T[3][2], n - 1, <<T[3][1]>> \o env) } ELSE {})
+GenT(T, d) == Small(Gen(Sig, ArgTypes, T, d, <<>>), MaxSize) \cup GenS(T, MaxSize, <<>>)
 Base == UNION { GenT(T, Depth) : T \in TopTypes }
 CoreN == Small(Gen(Sig, ArgTypes, NatT, 2, <<>>), CoreSize)           \* small closed nat terms
 CoreB == Small(Gen(Sig, ArgTypes, NatT, 2, <<NatT>>), CoreSize)       \* small nat terms under one binder
